@@ -203,6 +203,81 @@ func writesIn(body ast.Node, seeds ...string) []string {
 	return out
 }
 
+// globalWritesIn: assignments inside body (closures included) whose target is rooted at an identifier that is
+// neither declared inside the function (parameters, results, :=, var, range / type-switch bindings) nor the
+// receiver — that is, package-level state written on a read path (a lazily initialised cache, a counter).
+func globalWritesIn(fd *ast.FuncDecl) []string {
+	local := map[string]bool{"_": true}
+	addFields := func(fl *ast.FieldList) {
+		if fl == nil {
+			return
+		}
+		for _, f := range fl.List {
+			for _, n := range f.Names {
+				local[n.Name] = true
+			}
+		}
+	}
+	addFields(fd.Recv)
+	addFields(fd.Type.Params)
+	addFields(fd.Type.Results)
+	ast.Inspect(fd.Body, func(n ast.Node) bool {
+		switch v := n.(type) {
+		case *ast.FuncLit:
+			addFields(v.Type.Params)
+			addFields(v.Type.Results)
+		case *ast.AssignStmt:
+			if v.Tok == token.DEFINE {
+				for _, l := range v.Lhs {
+					if id, ok := l.(*ast.Ident); ok {
+						local[id.Name] = true
+					}
+				}
+			}
+		case *ast.RangeStmt:
+			if v.Tok == token.DEFINE {
+				for _, e := range []ast.Expr{v.Key, v.Value} {
+					if id, ok := e.(*ast.Ident); ok {
+						local[id.Name] = true
+					}
+				}
+			}
+		case *ast.GenDecl:
+			for _, sp := range v.Specs {
+				if vs, ok := sp.(*ast.ValueSpec); ok {
+					for _, n := range vs.Names {
+						local[n.Name] = true
+					}
+				}
+			}
+		case *ast.LabeledStmt:
+			local[v.Label.Name] = true
+		}
+		return true
+	})
+	var out []string
+	ast.Inspect(fd.Body, func(n ast.Node) bool {
+		switch v := n.(type) {
+		case *ast.AssignStmt:
+			if v.Tok == token.DEFINE {
+				return true
+			}
+			for _, l := range v.Lhs {
+				if id, _ := root(l); id != nil && !local[id.Name] {
+					out = append(out, show(v))
+					break
+				}
+			}
+		case *ast.IncDecStmt:
+			if id, _ := root(v.X); id != nil && !local[id.Name] {
+				out = append(out, show(v))
+			}
+		}
+		return true
+	})
+	return out
+}
+
 // inputFlows classifies every slice expression over the input buffer inside an unmarshal closure.
 func inputFlows(body ast.Node, kinds map[string]int, other *[]string, where string) {
 	var stack []ast.Node
@@ -376,8 +451,17 @@ func main() {
 				for _, w := range writesIn(fd.Body, recv) {
 					facts.ReadPathWrites = append(facts.ReadPathWrites, where+": "+w)
 				}
+				for _, w := range globalWritesIn(fd) {
+					facts.ReadPathWrites = append(facts.ReadPathWrites, where+": package-level state: "+w)
+				}
 			}
 			if strings.HasPrefix(tn, "fastReflection_") && fd.Name.Name == "ProtoMethods" {
+				// ProtoMethods itself runs on every Size / Marshal / Unmarshal call
+				facts.ReadFuncs++
+				facts.ReadFuncKinds["proto-methods"]++
+				for _, w := range globalWritesIn(fd) {
+					facts.ReadPathWrites = append(facts.ReadPathWrites, where+": package-level state: "+w)
+				}
 				ast.Inspect(fd.Body, func(n ast.Node) bool {
 					as, ok := n.(*ast.AssignStmt)
 					if !ok || len(as.Lhs) != 1 || len(as.Rhs) != 1 {
